@@ -511,8 +511,8 @@ static int sock_revents(Sock *s) {
 		Pipe *in = s->in, *out = s->out;
 		if (in->avail() || in->fin || in->rst || s->rd_shut) r |= POLLIN;
 		if (in->fin || in->rst) r |= POLLRDHUP;
-		if (out->rst) r |= POLLOUT;
-		else if (!s->wr_shut && out->room() > 0) r |= POLLOUT;
+		if (out->rst || s->wr_shut) r |= POLLOUT;	// Linux: a socket shut down for sending polls writable (the write then fails)
+		else if (out->room() > 0) r |= POLLOUT;
 		if (in->rst && !in->rst_reported) r |= POLLERR;
 		if (in->rst || (in->fin && s->wr_shut)) r |= POLLHUP;
 		break;
